@@ -45,6 +45,7 @@ type Conn struct {
 	latency time.Duration
 	ronce   sync.Once
 	wonce   sync.Once
+	conce   sync.Once
 }
 
 // Read reads bytes from connection into b, optionally simulating connection
@@ -106,6 +107,14 @@ type writerOnly struct {
 // Close closes the connection.
 // Any blocked Read or Write operations will be unblocked and return errors.
 func (c *Conn) Close() error {
+	// The buckets in LocalBuckets were created for this connection alone; their drain goroutines
+	// stop here. (The global and listener buckets are shared and stay open.)
+	c.conce.Do(func() {
+		for _, b := range c.LocalBuckets {
+			b.ReadBucket.Close()
+			b.WriteBucket.Close()
+		}
+	})
 	return c.conn.Close()
 }
 
